@@ -172,6 +172,7 @@ def pack_ccase(c):
     for key, off in (("colour", 1), ("sorted", 0), ("indexptr", 0)):
         f.append(len(c[key]))
         f += [int(x) + off for x in c[key]]
+    f.append(1 if c.get("arange") else 0)
     return _ints(f)
 
 
@@ -187,7 +188,8 @@ def pack_lcase(c):
 
 CFIELDS = {8: "color_map", 9: "sorted indices", 10: "indexptr", 12: "undecodable case",
            13: "zero-multiplier entries are not alias closed", 14: "model colouring improper",
-           15: "launch structure of dense_assembler"}
+           15: "launch structure of dense_assembler",
+           16: "arrays are not the arange layout (local2global[support] = arange, multipliers 1) that the alias-closure theorem covers"}
 
 
 def run_packed(ctx, packed, fn, tag, chunk=60, parallel=4):
